@@ -4,6 +4,7 @@ package main
 
 import (
 	"fmt"
+	"go/token"
 	"go/types"
 	"strings"
 
@@ -174,3 +175,129 @@ func cmdSelftest(args []string, o *options) int {
 }
 
 func indent(s string) string { return "  " + strings.ReplaceAll(s, "\n", "\n  ") }
+
+// ---------------------------------------------------------------------------
+// Write-once captured variables: a free variable whose cell is stored exactly once, in the function
+// that declares it, before any closure capturing it is created, and is otherwise only read (here and
+// in every closure that captures it), has a fixed value for the closure's whole life. Its loads are
+// modelled by one constant, independent of the heap (calls that "modify all" cannot reach the cell:
+// its address is never stored or passed anywhere).
+
+func readOnlyFreeVar(fv *ssa.FreeVar, depth int) bool {
+	if depth > 4 || fv.Referrers() == nil {
+		return false
+	}
+	for _, r := range *fv.Referrers() {
+		switch u := r.(type) {
+		case *ssa.UnOp:
+			if u.Op != token.MUL {
+				return false
+			}
+		case *ssa.DebugRef:
+		case *ssa.MakeClosure:
+			fn := u.Fn.(*ssa.Function)
+			for i, b := range u.Bindings {
+				if b == ssa.Value(fv) && (i >= len(fn.FreeVars) || !readOnlyFreeVar(fn.FreeVars[i], depth+1)) {
+					return false
+				}
+			}
+		default:
+			return false
+		}
+	}
+	return true
+}
+
+func before(a, b ssa.Instruction) bool {
+	if a.Block() == b.Block() {
+		for _, ins := range a.Block().Instrs {
+			if ins == a {
+				return true
+			}
+			if ins == b {
+				return false
+			}
+		}
+		return false
+	}
+	return a.Block().Dominates(b.Block())
+}
+
+func writeOnceCell(cell ssa.Value, depth int) bool {
+	switch c := cell.(type) {
+	case *ssa.FreeVar:
+		return freeVarIsConst(c, depth+1) && readOnlyFreeVar(c, depth+1)
+	case *ssa.Alloc:
+		if c.Referrers() == nil {
+			return false
+		}
+		var store *ssa.Store
+		var closures []*ssa.MakeClosure
+		for _, r := range *c.Referrers() {
+			switch u := r.(type) {
+			case *ssa.Store:
+				if u.Addr != ssa.Value(c) || store != nil {
+					return false
+				}
+				store = u
+			case *ssa.UnOp:
+				if u.Op != token.MUL {
+					return false
+				}
+			case *ssa.DebugRef:
+			case *ssa.MakeClosure:
+				fn := u.Fn.(*ssa.Function)
+				for i, b := range u.Bindings {
+					if b == ssa.Value(c) && (i >= len(fn.FreeVars) || !readOnlyFreeVar(fn.FreeVars[i], depth+1)) {
+						return false
+					}
+				}
+				closures = append(closures, u)
+			default:
+				return false
+			}
+		}
+		if store == nil {
+			return false
+		}
+		for _, mc := range closures {
+			if !before(store, mc) {
+				return false
+			}
+		}
+		return true
+	}
+	return false
+}
+
+func freeVarIsConst(fv *ssa.FreeVar, depth int) bool {
+	if depth > 4 {
+		return false
+	}
+	fn := fv.Parent()
+	parent := fn.Parent()
+	if parent == nil {
+		return false
+	}
+	idx := -1
+	for i, f := range fn.FreeVars {
+		if f == fv {
+			idx = i
+		}
+	}
+	if idx < 0 || !readOnlyFreeVar(fv, depth) {
+		return false
+	}
+	found := false
+	for _, b := range parent.Blocks {
+		for _, ins := range b.Instrs {
+			if mc, ok := ins.(*ssa.MakeClosure); ok && mc.Fn == ssa.Value(fn) {
+				found = true
+				if idx >= len(mc.Bindings) || !writeOnceCell(mc.Bindings[idx], depth) {
+					return false
+				}
+			}
+		}
+	}
+	return found
+}
